@@ -12,6 +12,8 @@ import (
 )
 
 // ---------------------------------------------------------------------------------------
+var debugWrites = os.Getenv("VERIF_DEBUG_WRITES") == "1"
+
 // simnet: the only transport any party sees. UDP sockets, TCP listeners and streams, all
 // blocking done on channels created inside the bubble.
 // ---------------------------------------------------------------------------------------
@@ -63,6 +65,7 @@ type Net struct {
 
 	mu        sync.RWMutex
 	udp       map[string]*UDPSock
+	OpaqueStreams bool // stream contents are not part of the canonical log (see TCPConn.Write)
 	tcpl      map[string][]*TCPListener // several listeners on one address only with SO_REUSEPORT on all of them
 	tcplRR    map[string]int
 	names     map[string]string // "ip:port" -> actor name; "ip" -> actor name
@@ -850,7 +853,16 @@ func (c *TCPConn) read(p []byte) (int, error) {
 func (c *TCPConn) Write(p []byte) (int, error) {
 	scripted := c.isScripted()
 	if !scripted {
-		c.N.K.YieldT("sock:"+c.Role+":Write", c.Name, fmt.Sprintf("%016x", HashStr(string(p))))
+		if c.N.OpaqueStreams {
+			// (W-tls: the bytes are ciphertext of a handshake whose randomness crypto/tls does not
+			// draw in a reproducible order - their length, not their content, identifies the write)
+			c.N.K.YieldT("sock:"+c.Role+":Write", c.Name, fmt.Sprintf("len%d", len(p)))
+		} else {
+			c.N.K.YieldT("sock:"+c.Role+":Write", c.Name, fmt.Sprintf("%016x", HashStr(string(p))))
+			if debugWrites {
+				c.N.K.Logf("write %s %x", c.Name, p)
+			}
+		}
 		if do, ok := c.N.ioFault(c.Role, "Write", c.Name+">"+akey(c.raddr.IP, c.raddr.Port)); ok && do == "error" {
 			if c.Role == "listener-conn" && c.N.Obs != nil {
 				c.N.Obs.TCPWrite(c, p) // the server did act; only the bytes are lost
